@@ -25,11 +25,13 @@ type dbOptSet struct {
 	IntervalUs  int // overrides IntervalMs when > 0
 	Async       bool
 	DirectIOWAL bool
+	Omit        uint8 // bit i set: option i of the size/compaction options is not passed at all (library default applies)
+	Order       int64 // != 0: the options are passed in a seeded order (options are a set)
 }
 
 func (o dbOptSet) String() string {
-	return fmt.Sprintf("memstore=%d threshold=%d maxSize=%d ratio=%.1f rbuf=%d wbuf=%d live=%v interval=%dms async=%v directIOWAL=%v",
-		o.Memstore, o.Threshold, o.MaxSize, o.Ratio, o.ReadBuf, o.WriteBuf, o.Live, o.IntervalMs, o.Async, o.DirectIOWAL)
+	return fmt.Sprintf("memstore=%d threshold=%d maxSize=%d ratio=%.1f rbuf=%d wbuf=%d live=%v interval=%dms async=%v directIOWAL=%v omitted=%06b shuffled=%v",
+		o.Memstore, o.Threshold, o.MaxSize, o.Ratio, o.ReadBuf, o.WriteBuf, o.Live, o.IntervalMs, o.Async, o.DirectIOWAL, o.Omit, o.Order != 0)
 }
 
 func drawDBOpts(r *rand.Rand, live bool) dbOptSet {
@@ -45,17 +47,33 @@ func drawDBOpts(r *rand.Rand, live bool) dbOptSet {
 	if live {
 		o.IntervalMs = 1 + r.Intn(5)
 	}
+	// one option set in three is passed in a shuffled order, and each of the compaction-selection and buffer options is
+	// left out (library default) with probability 1/6 — never the memstore size, which the workloads rely on
+	if r.Intn(3) == 0 {
+		o.Order = 1 + r.Int63n(1<<40)
+	}
+	for bit := 1; bit < 6; bit++ {
+		if r.Intn(6) == 0 {
+			o.Omit |= 1 << bit
+		}
+	}
 	return o
 }
 
 func (o dbOptSet) Options() []simpledb.ExtraOption {
-	opts := []simpledb.ExtraOption{
+	all := []simpledb.ExtraOption{
 		simpledb.MemstoreSizeBytes(o.Memstore),
 		simpledb.CompactionFileThreshold(o.Threshold),
 		simpledb.CompactionMaxSizeBytes(o.MaxSize),
 		simpledb.CompactionRatio(o.Ratio),
 		simpledb.ReadBufferSizeBytes(o.ReadBuf),
 		simpledb.WriteBufferSizeBytes(o.WriteBuf),
+	}
+	var opts []simpledb.ExtraOption
+	for i, op := range all {
+		if o.Omit&(1<<i) == 0 {
+			opts = append(opts, op)
+		}
 	}
 	if o.Live {
 		iv := time.Duration(o.IntervalMs) * time.Millisecond
@@ -71,6 +89,9 @@ func (o dbOptSet) Options() []simpledb.ExtraOption {
 	}
 	if o.DirectIOWAL {
 		opts = append(opts, simpledb.EnableDirectIOWAL())
+	}
+	if o.Order != 0 {
+		rand.New(rand.NewSource(o.Order)).Shuffle(len(opts), func(i, j int) { opts[i], opts[j] = opts[j], opts[i] })
 	}
 	return opts
 }
